@@ -283,6 +283,16 @@ def places_valid(cards, heights, first_jo, stage, places, bests):
             else:
                 if places[a] != places[b] and not (a in parts and b in parts):
                     out.append(('ties-share-a-place', {'bibs': [a, b], 'places': [places[a], places[b]]}))
+    # (3b) the jump-off is about FIRST place: participants it did not make first are placed by their cards like anybody
+    # else - exactly tied over the whole card (jump-off columns included), they share a place whichever round they left in
+    if parts:
+        full = {b: countback_key(cards[b], heights) for b in parts}
+        for a in parts:
+            for b in parts:
+                if a < b and places[a] not in (1, '') and places[b] not in (1, '') and full[a] == full[b] \
+                        and places[a] != places[b]:
+                    out.append(('ties-share-a-place', {'bibs': [a, b], 'places': [places[a], places[b]],
+                                                       'among': 'jump-off participants not placed first'}))
     firsts = [b for b in placed if places[b] == 1]
     # (4) no tie for first left standing unless drawn
     if stage in ('finished', 'won') and len(firsts) != 1:
